@@ -854,3 +854,53 @@ func specCutOK(t *ast.Text) bool {
 //@   loop 1
 //@     invariant lastCut == len(txt) && 0 <= firstCut && firstCut <= len(first.Text)
 //@     invariant forall(0, i, func(k int) bool { return specCutSpace(txt[k]) })
+
+func lastArgBytes(f string, i int) []byte { return nil }
+func called(f string) bool                { return false }
+
+// emitNodes, case *ast.Text: the bytes handed to the builder are exactly the
+// part of the node's text that the cuts leave, and nothing is emitted for an
+// empty remainder.
+//@ clause (*emitter).emitNodes/case *ast.Text
+//@   props C15 C04
+//@   opt track emitText
+//@   requires node != nil && specCutOK(node)
+//@   requires em.fb != nil && em.fb.fn != nil && em.fb.fn.Pos != nil && specTextsOK(em.fb)
+//@   ensures[C15] called("emitText") == old(node.Cut.Left+node.Cut.Right < len(node.Text))
+//@   ensures[C15] called("emitText") ==> sliceEq(lastArgBytes("emitText", 0), old(node.Text[node.Cut.Left:len(node.Text)-node.Cut.Right]))
+
+// flushText: the pending pieces become one entry of fn.Text and the buffer is
+// emptied; nothing happens when nothing is pending.
+//@ func (*functionBuilder).flushText
+//@   props C15 C04
+//@   requires fb != nil && fb.fn != nil
+//@   ensures[C15] len(fb.text.txt) == 0
+//@   ensures[C15] old(len(fb.text.txt)) == 0 ==> len(fb.fn.Text) == old(len(fb.fn.Text))
+//@   ensures[C15] old(len(fb.text.txt)) > 0 ==> len(fb.fn.Text) == old(len(fb.fn.Text)) + 1
+//@   loop 0
+//@     invariant 0 <= size
+//@   loop 1
+//@     invariant 0 <= len(text)
+
+// The texts of a function are indexed by a uint16 operand: there are at most
+// 65536 of them, counting the pending one.
+func specTextsOK(fb *functionBuilder) bool {
+	return len(fb.fn.Text) <= 65536 && (len(fb.fn.Text) < 65536 || len(fb.text.txt) == 0)
+}
+
+// emitText: a text either joins the pending pieces (same instruction) or, after
+// a flush, starts a new Text instruction whose operand is the index the text
+// will get in fn.Text.
+//@ func (*functionBuilder).emitText
+//@   props C15 C04 C20
+//@   panics allowed
+//@   panicpost[C20] len(fb.fn.Text) >= 65536
+//@   requires fb != nil && fb.fn != nil && fb.fn.Pos != nil
+//@   requires[C20] specTextsOK(fb)
+//@   ensures[C20] specTextsOK(fb)
+//@   ensures[C15] len(fb.text.txt) >= 1 && sliceEq(fb.text.txt[len(fb.text.txt)-1], txt)
+//@   ensures[C15] len(fb.fn.Body) == old(len(fb.fn.Body)) || len(fb.fn.Body) == old(len(fb.fn.Body)) + 1
+//@   ensures[C15] len(fb.fn.Body) == old(len(fb.fn.Body)) ==> len(fb.text.txt) == old(len(fb.text.txt)) + 1 && len(fb.fn.Text) == old(len(fb.fn.Text))
+//@   ensures[C15] len(fb.fn.Body) == old(len(fb.fn.Body)) + 1 ==> len(fb.text.txt) == 1
+//@   ensures[C15] len(fb.fn.Body) == old(len(fb.fn.Body)) + 1 ==> fb.fn.Body[len(fb.fn.Body)-1].Op == runtime.OpText
+//@   ensures[C15] len(fb.fn.Body) == old(len(fb.fn.Body)) + 1 ==> int(decodeUint16(fb.fn.Body[len(fb.fn.Body)-1].A, fb.fn.Body[len(fb.fn.Body)-1].B)) == len(fb.fn.Text)
